@@ -24,6 +24,7 @@ THE SOFTWARE.
 """
 
 import ast
+from copy import deepcopy
 from functools import cached_property, lru_cache
 
 
@@ -301,7 +302,8 @@ def optimize_mapper(
 
         cache_key_expr = None
         if inline_get_cache_key and "get_cache_key" in method_defs:
-            cache_key_expr = _get_cache_key_expr(method_defs["get_cache_key"])
+            cache_key_expr = deepcopy(
+                    _get_cache_key_expr(method_defs["get_cache_key"]))
 
         if inline_get_cache_key and cache_key_expr is None:
             raise ValueError("could not find expression for cache key")
@@ -313,7 +315,10 @@ def optimize_mapper(
         new_method_defs = []
 
         for mname in sorted(method_defs):
-            mdef = method_defs[mname]
+            # The module ASTs are cached (_get_ast_for_file) and the
+            # transformers below rewrite nodes in place: work on a copy, or a
+            # later optimization sees the already rewritten bodies.
+            mdef = deepcopy(method_defs[mname])
 
             mdef = _replace(mdef,
                     args=_replace(mdef.args,
